@@ -342,7 +342,7 @@ fn planted() -> Vec<(&'static str, String)> {
 }
 
 pub fn cli(thorough: bool, seed: u64) -> Report {
-    let mut rep = Report { bound: "the built complgen binary on: corpus grammars, 19 planted-mistake grammars, and seeded structure-aware mutations (token delete/duplicate/swap, stray brackets, truncation, non-ASCII, raw bytes, line breaks) x 4 shells".into(), exhaustive: false, ..Default::default() };
+    let mut rep = Report { bound: "the built complgen binary on: corpus grammars, 19 planted-mistake grammars, three deeply nested and three wide (many-path) inputs, and seeded structure-aware mutations (token delete/duplicate/swap, stray brackets, truncation, non-ASCII, raw bytes, line breaks) x 4 shells".into(), exhaustive: false, ..Default::default() };
     let Ok(bin) = std::env::var("COMPLGEN_BIN") else {
         rep.undecided.push("COMPLGEN_BIN not set".into());
         return rep;
@@ -367,6 +367,19 @@ pub fn cli(thorough: bool, seed: u64) -> Report {
         }
         chain.push_str("<A30000> ::= y;\n");
         inputs.push(("planted:deep:definition-chain".into(), chain.into_bytes()));
+    }
+    // wide inputs: small automata with very many paths through them (every walk over the automaton has to be
+    // per state, not per path: a per-path walk does not end within the time limit on these)
+    {
+        let flags: Vec<String> = ('a'..='z').chain('A'..='N').map(|c| format!("[-{c}]")).collect();
+        inputs.push(("planted:wide:optional-flags".into(), format!("mytool {} <PATH>;\n", flags.join(" ")).into_bytes()));
+        inputs.push(("planted:wide:alternatives-in-sequence".into(), format!("cmd {} end;\n", "(a | b)".to_string() + &" (a | b)".repeat(29)).into_bytes()));
+        let mut diamond = String::from("cmd <D0>;\n");
+        for k in 0..30 {
+            diamond.push_str(&format!("<D{k}> ::= (x{k} | y{k}) <D{}>;\n", k + 1));
+        }
+        diamond.push_str("<D30> ::= z;\n");
+        inputs.push(("planted:wide:diamond-chain".into(), diamond.into_bytes()));
     }
     let mut rng = Rng::new(seed.wrapping_add(99));
     let n_valid = if thorough { 400 } else { 60 };
